@@ -15,6 +15,8 @@ use redis_sim::replication::lattice::{GCounter, GSet, LamportClock, ORSet, PNCou
 use redis_sim::replication::state::{CrdtValue, ReplicatedValue, ReplicationDelta};
 use redis_sim::replication::GossipMessage;
 use redis_sim::streaming::{CheckpointReader, CheckpointWriter, Compression, SegmentReader, SegmentWriter, WalEntry};
+use crate::simkit::disk::{Image, Seq, SimWalStore};
+use redis_sim::streaming::WalRotator;
 use serde_json::json;
 use std::collections::HashMap;
 
@@ -66,15 +68,29 @@ fn dsig(d: &ReplicationDelta) -> String { format!("{:?}|{}|{}", d.key, d.source_
 /// Decode an image of encoding `enc`; Ok(signatures) or Err(reader's error).
 fn decode(enc: u64, img: &[u8], raw: bool) -> Result<Vec<String>, String> {
     match enc {
-        0 => { // WAL entry stream (no file header): entries until the first undecodable one
-            let mut out = Vec::new(); let mut off = 0;
-            while off < img.len() { match WalEntry::decode(&img[off..]) { Some((e, n)) => { if raw { out.push(format!("{}:{:08x}:{}", e.timestamp, e.checksum, fnv(0, &e.data))); } else { match e.to_delta() { Ok(d) => out.push(dsig(&d)), Err(er) => return Err(er.to_string()) } } off += n; } None => break } }
+        0 => { // a WAL file (header + entries) read back by the real recovery path (WalRotator -> WalReader)
+            let mut image = Image::new();
+            image.insert("wal-00000001.wal".to_string(), img.to_vec());
+            let rot = WalRotator::new(SimWalStore::from_image(&image), 1 << 30).map_err(|e| e.to_string())?;
+            let mut out = Vec::new();
+            for e in rot.recover_all_entries().map_err(|e| e.to_string())? {
+                if raw { out.push(format!("{}:{:08x}:{}", e.timestamp, e.checksum, fnv(0, &e.data))); } else { match e.to_delta() { Ok(d) => out.push(dsig(&d)), Err(er) => return Err(er.to_string()) } }
+            }
             Ok(out)
         }
         1 => { let r = SegmentReader::open(img).map_err(|e| e.to_string())?; r.validate().map_err(|e| e.to_string())?; let ds: Result<Vec<_>, _> = r.deltas().map_err(|e| e.to_string())?.collect(); Ok(ds.map_err(|e| e.to_string())?.iter().map(dsig).collect()) }
         2 => { let r = CheckpointReader::open(img).map_err(|e| e.to_string())?; r.validate().map_err(|e| e.to_string())?; let d = r.load().map_err(|e| e.to_string())?; let mut v: Vec<String> = d.state.iter().map(|(k, v)| format!("{:?}|{}", k, proj_s(v))).collect(); v.sort(); v.push(format!("meta:{}:{}:{}", r.key_count(), r.timestamp_ms(), r.last_segment_id())); Ok(v) }
         _ => { let m = GossipMessage::deserialize(img).map_err(|e| e.to_string())?; let src_r = m.source_replica().0; let ds = m.into_deltas().unwrap_or_default(); let mut v: Vec<String> = ds.iter().map(dsig).collect(); v.push(format!("from:{}", src_r)); Ok(v) }
     }
+}
+/// The WAL file as the real writer lays it out: header, then one entry per update.
+fn wal_file(deltas: &[ReplicationDelta]) -> Result<Vec<u8>, String> {
+    let wstore = SimWalStore::new(Seq::default());
+    let mut rot = WalRotator::new(wstore.clone(), 1 << 30).map_err(|e| e.to_string())?;
+    for d in deltas { let e = WalEntry::from_delta(d, d.value.timestamp.time).map_err(|e| e.to_string())?; rot.append(&e).map_err(|e| e.to_string())?; }
+    rot.sync().map_err(|e| e.to_string())?;
+    let b = wstore.inner.lock().unwrap().files.values().next().map(|f| f.data.clone()).unwrap_or_default();
+    Ok(b)
 }
 fn enc_name(e: u64) -> &'static str { ["wal-entries", "segment", "checkpoint", "gossip-json"][e as usize % 4] }
 
@@ -114,7 +130,7 @@ impl Property for C14 {
         if kinds.len() >= 3 { rep.probe("roundtrip_all_types"); }
         // ---- encode
         let mut images: Vec<(u64, Vec<u8>, Vec<String>)> = Vec::new();
-        { let mut b = Vec::new(); for d in &deltas { match WalEntry::from_delta(d, d.value.timestamp.time) { Ok(e) => b.extend_from_slice(&e.encode()), Err(e) => { rep.violate("C14/encode-failed/wal", e.to_string()); return rep; } } } images.push((0, b, want.clone())); }
+        match wal_file(&deltas) { Ok(b) => images.push((0, b, want.clone())), Err(e) => { rep.violate("C14/encode-failed/wal", e); return rep; } }
         { let mut w = SegmentWriter::new(Compression::None); for d in &deltas { if let Err(e) = w.write_delta(d) { rep.violate("C14/encode-failed/segment", e.to_string()); return rep; } } match w.finish() { Ok(b) => images.push((1, b, want.clone())), Err(e) => { rep.violate("C14/encode-failed/segment", e.to_string()); return rep; } } }
         {
             // checkpoint holds a map: one value per key (last wins)
@@ -142,7 +158,7 @@ impl Property for C14 {
         let fwant: Vec<String> = fdeltas.iter().map(dsig).collect();
         let mut images: Vec<(u64, Vec<u8>, Vec<String>)> = Vec::new();
         if !fdeltas.is_empty() {
-            { let mut b = Vec::new(); for d in &fdeltas { if let Ok(e) = WalEntry::from_delta(d, d.value.timestamp.time) { b.extend_from_slice(&e.encode()); } } images.push((0, b, fwant.clone())); }
+            if let Ok(b) = wal_file(&fdeltas) { images.push((0, b, fwant.clone())); }
             { let mut w = SegmentWriter::new(Compression::None); for d in &fdeltas { let _ = w.write_delta(d); } if let Ok(b) = w.finish() { images.push((1, b, fwant.clone())); } }
             { let (k, v, _) = free[0]; let mut state: HashMap<String, ReplicatedValue> = HashMap::new(); state.insert(k.clone(), v.clone()); let w = vec![format!("{:?}|{}", k, proj_s(v)), "meta:1:77:3".to_string()]; if let Ok(b) = CheckpointWriter::new(Compression::None).write(state, 77, 3) { images.push((2, b, w)); } }
             { let m = GossipMessage::new_delta_batch(ReplicaId::new(3), fdeltas.clone(), 5); if let Ok(b) = m.serialize() { let mut w = fwant.clone(); w.push("from:3".into()); images.push((3, b, w)); } }
@@ -152,7 +168,7 @@ impl Property for C14 {
             if len == 0 { continue; }
             // WAL entries are compared by their raw identity (stamp, checksum, payload hash) under damage:
             // decoding the payload of every surviving entry for every mutation would dominate the run
-            let w_raw; let w = if *enc == 0 { w_raw = decode(0, img, true).unwrap_or_default(); &w_raw } else { w };
+            let w_raw; let w = if *enc == 0 { let r = decode(0, img, true); if r.as_ref().map(|v| v.len()).unwrap_or(0) != w.len() { rep.violate("C14/roundtrip-differs/wal-entries", format!("the intact WAL file of {} updates reads back as {:?} entries", w.len(), r.as_ref().map(|v| v.len()))); return rep; } w_raw = r.unwrap_or_default(); &w_raw } else { w };
             let mut muts: Vec<Mut> = Vec::new();
             if mode == 1 {
                 if h_enc != *enc { continue; }
